@@ -402,8 +402,16 @@ Definition in_ack_fail (c : cfg) (s : st) (ty pid rc : N) (now : Z) (orc : list 
     (deferred_fail (with_infl s2 (del pid (s_infl s2))) orc, [])
   else (s, []).
 
+(* a delivery whose queued PUBLISH the write loop cannot write: publishToClient has done everything (record, quota,
+   queue); WriteLoop gets the error, reports the message through OnPublishDropped and goes on - nothing is rolled back *)
+Definition out_publish_fault (c : cfg) (s : st) (pubqos subqos uid : N) (now : Z) (mei : N) (ppv5 : bool) : st * list out :=
+  let '(s', outs) := out_publish c s pubqos subqos uid now mei ppv5 false in
+  (s', map (fun o => match o with OPkt _ _ _ _ u _ => ODrop u | x => x end) outs).
+
 Definition step_fault (c : cfg) (s : st) (o : op) (orc : list N) : st * list out :=
   match o with
+  | OutPublish pq sq uid _ now mei ppv5 _ =>
+      if s_present s then out_publish_fault c s pq sq uid now mei ppv5 else (s, [])
   | InPublish qos pid _ uid now =>
       if s_present s && s_conn s then in_publish_fail c s qos pid uid now orc else (s, [])
   | InAck ty pid rc now =>
